@@ -3,7 +3,7 @@ import itertools
 from fractions import Fraction
 import symnp as np
 from symx.core import SV, linear_coeffs, atom_index
-from harness.common import Obligation, PathResult, real_sempler, unj, unj_float
+from harness.common import visibly, Obligation, PathResult, real_sempler, unj, unj_float
 from oracles import graph as G
 
 PID = 'C05'
@@ -57,7 +57,7 @@ def styled_x(vals, style):
 def eq_all(name, got, want, cl):
     """elementwise equality clauses between two same-shaped nested lists"""
     for idx, (g, w) in enumerate(zip(_flat(got), _flat(want))):
-        cl.append(('%s[%d]' % (name, idx), g == w))
+        cl.append(('%s[%d]' % (name, idx), g == w, visibly(g, w)))
 
 
 def _flat(x):
@@ -102,12 +102,12 @@ def cond_clauses(cl, c, mu, S, Y, X, xv):
             lhs = lhs + adj(a, b) * (c.mean[b] - mu[Y[b]])
         for k in range(nx):
             lhs = lhs + adj(a, ny + k) * (xv[k] - mu[X[k]])
-        cl.append(('precision form of the conditional mean, row %d' % a, G.Implies(guard, lhs == 0)))
+        cl.append(('precision form of the conditional mean, row %d' % a, G.Implies(guard, lhs == 0), visibly(lhs, 0)))
         for b in range(ny):
             lhs = 0
             for t in range(ny):
                 lhs = lhs + adj(a, t) * c.covariance[t, b]
-            cl.append(('precision form of the conditional covariance (%d,%d)' % (a, b), G.Implies(guard, lhs == (det if a == b else 0))))
+            cl.append(('precision form of the conditional covariance (%d,%d)' % (a, b), G.Implies(guard, lhs == (det if a == b else 0)), visibly(lhs, (det if a == b else 0))))
 
 
 def h_cond(ctx):
@@ -165,8 +165,8 @@ def h_cond_history(ctx):
                     sub.append(('mean', c.mean[a] == mu[Y[a]]))
             else:
                 cond_clauses(sub, c, mu, S, Y, Xs, xs)
-            for (nm, f) in sub:
-                cl.append(('query %d on the same object (X = %s): %s' % (n + 1, Xs, nm), f))
+            for item in sub:
+                cl.append(('query %d on the same object (X = %s): %s' % (n + 1, Xs, item[0]),) + tuple(item[1:]))
         outcome = 'returned'
     except np.linalg.LinAlgError:
         outcome = 'singular conditioning block (outside the statement)'
